@@ -454,3 +454,264 @@ pub fn apply(kind: &str, g: &GS, k: usize) -> Option<GS> {
     _ => None,
   }
 }
+
+// ---------------------------------------------------------------------------
+// C09: identities of operators, occurrences and prelude names, as rewrites
+
+pub const KINDS9: &[&str] = &["swap-choice", "occ-spelling", "prelude-expand", "range-excl-to-incl", "swap-group-choice-disjoint"];
+
+/// RFC 8610 Appendix D definitions written out (as type trees)
+pub fn prelude_definition(n: &str, cbor: bool) -> Option<GType> {
+  let nm = |s: &str| t1(name(s));
+  let tag = |k: u64, inner: &str| GType { choices: vec![t1(GType2::Tag(Some(GTagC::Lit(k)), tname(inner)))] };
+  Some(match n {
+    "int" => GType { choices: vec![nm("uint"), nm("nint")] },
+    "number" => GType { choices: vec![nm("int"), nm("float")] },
+    "bool" => GType { choices: vec![nm("false"), nm("true")] },
+    "text" => tname("tstr"),
+    "tstr" => tname("text"),
+    "nil" => tname("null"),
+    "null" => tname("nil"),
+    "uint" if cbor => ty(GType2::Major(0, None)),
+    "nint" if cbor => ty(GType2::Major(1, None)),
+    "bstr" if cbor => ty(GType2::Major(2, None)),
+    "bytes" if cbor => tname("bstr"),
+    "tstr" if cbor => ty(GType2::Major(3, None)),
+    "float" if cbor => GType { choices: vec![nm("float16-32"), nm("float64")] },
+    "float64" if cbor => ty(GType2::Major(7, Some(GTagC::Lit(27)))),
+    "false" if cbor => ty(GType2::Major(7, Some(GTagC::Lit(20)))),
+    "true" if cbor => ty(GType2::Major(7, Some(GTagC::Lit(21)))),
+    "nil" if cbor => ty(GType2::Major(7, Some(GTagC::Lit(22)))),
+    "undefined" if cbor => ty(GType2::Major(7, Some(GTagC::Lit(23)))),
+    "tdate" if cbor => tag(0, "tstr"),
+    "time" if cbor => tag(1, "number"),
+    "biguint" if cbor => tag(2, "bstr"),
+    "bignint" if cbor => tag(3, "bstr"),
+    "bigint" if cbor => GType { choices: vec![nm("biguint"), nm("bignint")] },
+    "integer" if cbor => GType { choices: vec![nm("int"), nm("bigint")] },
+    "unsigned" if cbor => GType { choices: vec![nm("uint"), nm("biguint")] },
+    "uri" if cbor => tag(32, "tstr"),
+    "b64url" if cbor => tag(33, "tstr"),
+    "regexp" if cbor => tag(35, "tstr"),
+    "encoded-cbor" if cbor => tag(24, "bstr"),
+    "cbor-any" if cbor => tag(55799, "any"),
+    _ => return None,
+  })
+}
+
+pub fn apply9(kind: &str, g: &GS, k: usize, cbor: bool) -> Option<GS> {
+  let mut out = g.clone();
+  match kind {
+    "swap-choice" => {
+      // reverse the alternatives of the k-th type with >= 2 choices (rule bodies and nested types)
+      let cnt = Cell::new(0usize);
+      let total = {
+        let c = Cell::new(0usize);
+        let mut tmp = g.clone();
+        visit_types(&mut tmp, &mut |t| {
+          if t.choices.len() >= 2 {
+            c.set(c.get() + 1);
+          }
+        });
+        c.get()
+      };
+      if total == 0 {
+        return None;
+      }
+      let target = k % total;
+      visit_types(&mut out, &mut |t| {
+        if t.choices.len() >= 2 {
+          if cnt.get() == target {
+            t.choices.reverse();
+          }
+          cnt.set(cnt.get() + 1);
+        }
+      });
+      Some(out)
+    }
+    "occ-spelling" => {
+      let cnt = Cell::new(0usize);
+      let total = {
+        let c = Cell::new(0usize);
+        let mut tmp = g.clone();
+        visit_entries(&mut tmp, &mut |e| {
+          if occ_of(e).map(|o| respell(o).is_some()).unwrap_or(false) {
+            c.set(c.get() + 1);
+          }
+        });
+        c.get()
+      };
+      if total == 0 {
+        return None;
+      }
+      let target = k % total;
+      visit_entries(&mut out, &mut |e| {
+        let cur = occ_of(e).cloned();
+        if let Some(o) = cur {
+          if let Some(n) = respell(&o) {
+            if cnt.get() == target {
+              set_occ(e, Some(n));
+            }
+            cnt.set(cnt.get() + 1);
+          }
+        }
+      });
+      Some(out)
+    }
+    "prelude-expand" => {
+      // in the k-th type that has a bare prelude name as one of its alternatives, splice the
+      // alternatives of the name's definition in its place (no parentheses involved)
+      let defined: Vec<String> = g.rules.iter().map(|r| r.name.clone()).collect();
+      let params: Vec<String> = g.rules.iter().flat_map(|r| r.params.clone()).collect();
+      let expandable = |c: &GType1| -> Option<GType> {
+        if c.op.is_some() {
+          return None;
+        }
+        if let GType2::Name(nm, a) = &c.t2 {
+          if a.is_empty() && !defined.contains(nm) && !params.contains(nm) {
+            return prelude_definition(nm, cbor);
+          }
+        }
+        None
+      };
+      let total = {
+        let c = Cell::new(0usize);
+        let mut tmp = g.clone();
+        visit_types(&mut tmp, &mut |t| {
+          if t.choices.iter().any(|x| expandable(x).is_some()) {
+            c.set(c.get() + 1);
+          }
+        });
+        c.get()
+      };
+      if total == 0 {
+        return None;
+      }
+      let target = k % total;
+      let cnt = Cell::new(0usize);
+      visit_types(&mut out, &mut |t| {
+        if t.choices.iter().any(|x| expandable(x).is_some()) {
+          if cnt.get() == target {
+            let i = t.choices.iter().position(|x| expandable(x).is_some()).unwrap();
+            let d = expandable(&t.choices[i]).unwrap();
+            t.choices.splice(i..=i, d.choices);
+          }
+          cnt.set(cnt.get() + 1);
+        }
+      });
+      Some(out)
+    }
+    "range-excl-to-incl" => {
+      // a...b == a..(b-1) on integers (the two operators differ only at the upper bound)
+      let done = Cell::new(false);
+      {
+        let mut t2 = |_: &mut GType2| {};
+        let mut t1f = |t: &mut GType1| {
+          if done.get() {
+            return;
+          }
+          if let Some((GOp::Range { incl }, hi)) = &mut t.op {
+            if !*incl {
+              if let GType2::Lit(l) = hi {
+                let v = match l.value() {
+                  GLit::Uint(n) => Some(*n as i128),
+                  GLit::Nint(n) => Some(*n),
+                  _ => None,
+                };
+                let lo_int = matches!(&t.t2, GType2::Lit(x) if matches!(x.value(), GLit::Uint(_) | GLit::Nint(_)));
+                if let (Some(v), true) = (v, lo_int) {
+                  let n = v - 1;
+                  *hi = GType2::Lit(if n >= 0 { GLit::Uint(n as u64) } else { GLit::Nint(n) });
+                  *incl = true;
+                  done.set(true);
+                }
+              }
+            }
+          }
+        };
+        let mut en = |_: &mut GEntry| {};
+        VisitMut { t2: &mut t2, t1: &mut t1f, entry: &mut en }.gs(&mut out);
+      }
+      if done.get() {
+        Some(out)
+      } else {
+        None
+      }
+    }
+    _ => None,
+  }
+}
+
+fn occ_of(e: &GEntry) -> Option<&GOcc> {
+  match e {
+    GEntry::Val { occ, .. } | GEntry::Name { occ, .. } | GEntry::Inline { occ, .. } => occ.as_ref(),
+  }
+}
+fn set_occ(e: &mut GEntry, o: Option<GOcc>) {
+  match e {
+    GEntry::Val { occ, .. } | GEntry::Name { occ, .. } | GEntry::Inline { occ, .. } => *occ = o,
+  }
+}
+/// the other spelling of the same occurrence
+fn respell(o: &GOcc) -> Option<GOcc> {
+  Some(match o {
+    GOcc::Opt => GOcc::Range(Some(0), Some(1)),
+    GOcc::Star => GOcc::Range(Some(0), None),
+    GOcc::Plus => GOcc::Range(Some(1), None),
+    GOcc::Range(Some(0), Some(1)) => GOcc::Opt,
+    GOcc::Range(Some(0), None) => GOcc::Star,
+    GOcc::Range(Some(1), None) => GOcc::Plus,
+    GOcc::Range(None, Some(n)) => GOcc::Range(Some(0), Some(*n)),
+    _ => return None,
+  })
+}
+
+pub fn visit_types(g: &mut GS, f: &mut dyn FnMut(&mut GType)) {
+  fn ty(t: &mut GType, f: &mut dyn FnMut(&mut GType)) {
+    f(t);
+    for c in &mut t.choices {
+      t2(&mut c.t2, f);
+      if let Some((_, r)) = &mut c.op {
+        t2(r, f);
+      }
+    }
+  }
+  fn t2(t: &mut GType2, f: &mut dyn FnMut(&mut GType)) {
+    match t {
+      GType2::Paren(x) | GType2::Tag(_, x) => ty(x, f),
+      GType2::Map(g) | GType2::Array(g) | GType2::EnumInline(g) => gr(g, f),
+      GType2::Name(_, a) | GType2::Unwrap(_, a) | GType2::EnumName(_, a) => {
+        for x in a {
+          t2(&mut x.t2, f);
+        }
+      }
+      _ => {}
+    }
+  }
+  fn gr(g: &mut GGroup, f: &mut dyn FnMut(&mut GType)) {
+    for c in &mut g.choices {
+      for e in &mut c.entries {
+        en(e, f);
+      }
+    }
+  }
+  fn en(e: &mut GEntry, f: &mut dyn FnMut(&mut GType)) {
+    match e {
+      GEntry::Val { ty: t, .. } => ty(t, f),
+      GEntry::Inline { group, .. } => gr(group, f),
+      GEntry::Name { .. } => {}
+    }
+  }
+  for r in &mut g.rules {
+    match &mut r.body {
+      GBody::Type(t) => ty(t, f),
+      GBody::Group(e) => en(e, f),
+    }
+  }
+}
+
+pub fn visit_entries(g: &mut GS, f: &mut dyn FnMut(&mut GEntry)) {
+  let mut t2 = |_: &mut GType2| {};
+  let mut t1f = |_: &mut GType1| {};
+  VisitMut { t2: &mut t2, t1: &mut t1f, entry: f }.gs(g);
+}
